@@ -346,6 +346,13 @@ func TestVerifRotateLogger(t *testing.T) {
 			}
 		}
 	}
+	// other delimiters (the naming scheme must agree between naming, globbing and the
+	// keep-days boundary whatever the delimiter): some sort below '-', some above
+	for _, delim := range []string{"+", ",", "_", "."} {
+		cfgs = append(cfgs, rlCfg{rule: "size", days: 1, gzip: false, delim: delim, maxSize: 10, maxBackups: 0, pre: "foreign"},
+			rlCfg{rule: "size", days: 1, gzip: delim == ".", delim: delim, maxSize: 10, maxBackups: 2, pre: "mixed3"},
+			rlCfg{rule: "daily", days: 1, gzip: false, delim: delim, pre: "mixed3"})
+	}
 	depth := 5
 	if vrt.Thorough() {
 		depth = 7
@@ -359,7 +366,11 @@ func TestVerifRotateLogger(t *testing.T) {
 	ops := []string{"w3", "w8", "w30", "t1", "t86400", "t259200", "reopen", "close"}
 	for i, c := range mine {
 		c := c
-		vrt.BFS(vrt.Options{Name: "rotatelogger/" + c.String(), Budget: vrt.FairBudget(len(mine) - i)}, depth, ops, func(r *vrt.Run, hist []string) vrt.Step {
+		d := depth
+		if c.delim != "-" && !(c.rule == "daily" && c.delim == ".") {
+			d = depth - 1 // the extra delimiter configurations: one step shallower
+		}
+		vrt.BFS(vrt.Options{Name: "rotatelogger/" + c.String(), Budget: vrt.FairBudget(len(mine) - i)}, d, ops, func(r *vrt.Run, hist []string) vrt.Step {
 			s := newRlSys(r, c)
 			for _, op := range hist {
 				if !s.apply(op) {
